@@ -125,6 +125,8 @@ def close(a, b, tol=LNL_TOL):
         return False
     if math.isnan(a) or math.isnan(b):
         return False
+    if math.isinf(a) or math.isinf(b):
+        return a == b  # a zero-probability alignment (-inf) must be -inf on both sides
     return abs(a - b) <= tol * (1 + abs(b))
 
 
@@ -680,7 +682,7 @@ def fresh_histories(cfg, depth, acc, chunk, of):
 EDGES3 = ("a", "b", "c")
 SCOPES = {"all": None, "edge:a": ["a"], "edges:a,b": ["a", "b"], "edges:b,c": ["b", "c"]}
 PAR_DEFAULTS = {"kappa": {"ibd": False, "lower": 1e-6, "upper": 1e6, "vals": [2.0, 0.5], "big": (2e6, 1e7)},
-                "length": {"ibd": True, "lower": 0.0, "upper": 10.0, "vals": [0.4, 1.3], "big": (15.0, 20.0)}}
+                "length": {"ibd": True, "lower": 0.0, "upper": 10.0, "vals": [0.0, 1.3], "big": (15.0, 20.0)}}  # v0 sits on the lower bound: exported rules carry init=0.0
 MPROBS = [{"T": 0.1, "C": 0.2, "A": 0.3, "G": 0.4}, {"T": 0.4, "C": 0.3, "A": 0.2, "G": 0.1}]
 KINDS = ("const_v0", "const_v1", "const_cur", "init_v0", "init_v1", "indep", "shared", "init_big")
 
